@@ -236,6 +236,7 @@ pub fn run_pipeline(
     }
 
     let mut cmd_result = CommandResult::new();
+    let mut start_failed = false;
     for i in 0..length {
         let child_id: i32 = run_single_program(
             sh,
@@ -252,6 +253,9 @@ pub fn run_pipeline(
 
         if child_id > 0 && !cl.background {
             fg_pids.push(child_id);
+        }
+        if child_id < 0 {
+            start_failed = true;
         }
     }
 
@@ -273,6 +277,10 @@ pub fn run_pipeline(
         if !capture {
             cmd_result = _cr;
         }
+    }
+    // a pipeline with a stage that could not be started has failed
+    if start_failed && cmd_result.status == 0 {
+        cmd_result.status = 1;
     }
     (term_given, cmd_result)
 }
@@ -349,7 +357,7 @@ fn run_single_program(
                 println_stderr!("cicada: pipeline4: {}", e);
                 release_stage_fds(idx_cmd, pipes, None, idx_cmd == pipes_count && capture,
                                   fds_capture_stdout, fds_capture_stderr);
-                return 1;
+                return -1;
             }
         }
     }
@@ -640,7 +648,7 @@ fn run_single_program(
             release_stage_fds(idx_cmd, pipes, fds_stdin, idx_cmd == pipes_count && capture,
                               fds_capture_stdout, fds_capture_stderr);
             *cmd_result = CommandResult::error();
-            0
+            -1
         }
     }
 }
